@@ -68,11 +68,29 @@ def run(ck):
     w = m.func("MemArray.write")
     byte_order_rules(ck, m, "R2")
     # ---------------------------------------------------------------- R3
+    # the stored byte is removed exactly where the byte written is known to be the original cell of that very offset:
+    # (base', off') = get_expr_base_offset(<byte>.ptr) with base' == self.base and off' == <the store key> as must-facts at the deletion
+    from sa.facts import guard_facts as _gf
+    from sa.cfg import CFG as _CFG
+    wcfg = _CFG(w)
+    wfacts = _gf(wcfg)
     ok = False
+    pairs = []
     for n in walk_body(w):
-        if isinstance(n, ast.If) and "src_ptr == self.base" in norm(n.test) and "src_off == request_offset" in norm(n.test):
-            if any(isinstance(s, ast.Delete) and norm(s.targets[0]) == "self._offset_to_expr[request_offset]" for s in n.body):
-                ok = True
+        if isinstance(n, ast.Assign) and isinstance(n.targets[0], ast.Tuple) and len(n.targets[0].elts) == 2 and isinstance(n.value, ast.Call) \
+                and (dotted(n.value.func) or "").split(".")[-1] == "get_expr_base_offset" and n.value.args and norm(n.value.args[0]).endswith(".ptr"):
+            pairs.append((norm(n.targets[0].elts[0]), norm(n.targets[0].elts[1])))
+    store_keys = set(norm(n.targets[0].slice) for n in walk_body(w) if isinstance(n, ast.Assign) and isinstance(n.targets[0], ast.Subscript)
+                     and norm(n.targets[0].value) == "self._offset_to_expr")
+    for nd in wcfg.nodes:
+        if nd.kind == "stmt" and isinstance(nd.ast, ast.Delete) and any(isinstance(t, ast.Subscript) and norm(t.value) == "self._offset_to_expr" for t in nd.ast.targets):
+            dk = [norm(t.slice) for t in nd.ast.targets if isinstance(t, ast.Subscript)][0]
+            f = wfacts.get(nd.id, frozenset())
+            eqs = [(x[1], x[3]) for x in f if x[0] == "cmp" and x[2] == "=="]
+
+            def eq(a, b):
+                return (a, b) in eqs or (b, a) in eqs
+            ok = dk in store_keys and any(eq(bp, "self.base") and eq(op_, dk) for (bp, op_) in pairs)
     ck.ob("R3", "MemArray.write:restore-original", ok, m.where(w), "writing @8[base+off] at base+off does not remove the stored byte")
 
     # ---------------------------------------------------------------- R4
